@@ -115,17 +115,21 @@ class DataSaveable:
         
         """
         shpl = list(self.data.shape)
+        # the array has to hold the axis values, too (e.g. integer data with
+        # an axis of real values)
+        dtp = numpy.result_type(self.data.dtype, 
+                                numpy.asarray(axis.data).dtype)
         
         if len(shpl) == 2:
             shpl[1] += 1
             shp = tuple(shpl)
-            data = numpy.zeros(shp,dtype=self.data.dtype)
+            data = numpy.zeros(shp,dtype=dtp)
             data[:,1:] = self.data
             data[:,0] = axis.data     
         elif len(shpl) == 1:
             shpl.append(2)
             shp = tuple(shpl)
-            data = numpy.zeros(shp,dtype=self.data.dtype)
+            data = numpy.zeros(shp,dtype=dtp)
             data[:,1] = self.data
             data[:,0] = axis.data
         else:
